@@ -226,6 +226,12 @@ ensures
         *r == self.block_hash,
 @*/
 }
+// `cert.block_hash().cloned().expect(..)` (R8, the idiom of pool.rs): the expect is a proof obligation
+#[verifier::external_body]
+pub fn verif_cert_block_hash(c: &Cert) -> (r: BlockHash)
+    requires c is Notar || c is NotarFallback || c is FastFinal
+    ensures r == (match *c { Cert::Notar(x) => x.block_hash, Cert::NotarFallback(x) => x.block_hash, Cert::FastFinal(x) => x.block_hash, _ => arbitrary() })
+{ unimplemented!() }
 impl Cert {
 /*@ extract src/consensus/cert.rs :: impl Cert/fn slot
 ret r
@@ -364,6 +370,8 @@ requires
         // [C05.no_vote_in_pruned_slot]
         slot.0 >= old(self).lo(),
 ensures
+        // [C05.notarized_mark_only_from_a_notarization_certificate] (frame)
+        forall|s: Slot| (#[trigger] final(self).st(s)).block_notarized == old(self).st(s).block_notarized,
         final(self).inv(),
         final(self).same_env(old(self)),
         // [C05.finalize_only_own_notarized_block_with_certificate]
@@ -422,6 +430,8 @@ requires
         slot.0 + SLOTS_PER_WINDOW <= u64::MAX,
 sig `(&mut self, slot: Slot)` => `(&mut self, slot: Slot, Ghost(bad_pending): Ghost<Option<Slot>>)`
 ensures
+        // [C05.notarized_mark_only_from_a_notarization_certificate] (frame)
+        forall|s: Slot| (#[trigger] final(self).st(s)).block_notarized == old(self).st(s).block_notarized,
         final(self).inv_x(bad_pending),
         final(self).same_env(old(self)),
         // [C05.skip_only_unvoted_slots_of_the_window]
@@ -435,6 +445,7 @@ before `let mut verif_w: u64 = slot.first_slot_in_window().inner();`
         let ghost pre = *self;
 loop 0
         invariant
+            forall|s: Slot| (#[trigger] self.st(s)).block_notarized == old(self).st(s).block_notarized,
             self.inv_x(bad_pending),
             self.same_env(&pre),
             pre.same_env(old(self)) && pre.sent@ == old(self).sent@ && pre.slots@ == old(self).slots@,
@@ -471,6 +482,8 @@ requires
         // [C05.no_vote_in_pruned_slot]
         slot.0 >= old(self).lo(),
 ensures
+        // [C05.notarized_mark_only_from_a_notarization_certificate] (frame)
+        forall|s: Slot| (#[trigger] final(self).st(s)).block_notarized == old(self).st(s).block_notarized,
         final(self).inv(),
         final(self).same_env(old(self)),
         !r ==> final(self).sent@ == old(self).sent@ && final(self).slots@ == old(self).slots@,
@@ -575,6 +588,8 @@ rewrite[R8] `self.slots.get(&slot).and_then(|s| s.pending_block.clone())` => `se
 requires
         old(self).inv(),
 ensures
+        // [C05.notarized_mark_only_from_a_notarization_certificate] (frame)
+        forall|s: Slot| (#[trigger] final(self).st(s)).block_notarized == old(self).st(s).block_notarized,
         final(self).inv(),
         final(self).same_env(old(self)),
         old(self).sent@.is_prefix_of(final(self).sent@),
@@ -584,6 +599,7 @@ before `let slots = self.verif_slots_with_pending_block();`
         let ghost pre = *self;
 loop 0
         invariant
+            forall|s: Slot| (#[trigger] self.st(s)).block_notarized == old(self).st(s).block_notarized,
             self.inv(),
             self.same_env(&pre),
             pre.same_env(old(self)) && pre.sent@ == old(self).sent@,
@@ -610,11 +626,16 @@ after `self.try_notar(slot, block_info);`
 props C05
 elide-async
 rewrite*[R3b] `self.broadcast(` => `self.verif_broadcast(`
+rewrite?[R8] `cert .block_hash() .cloned() .expect("notar(-fallback) cert always references a block")` => `verif_cert_block_hash(&cert)`
 rewrite[R8] `ConsensusMessage::from(cert)` => `ConsensusMessage::Cert(cert)`
 requires
         old(self).inv(),
         cert.spec_slot().0 >= old(self).lo(),
 ensures
+        // [C05.notarized_mark_only_from_a_notarization_certificate] "casts a finalize vote only ... after seeing that block's notarization
+        // certificate": the mark try_final relies on is set by nothing but a notarization certificate for exactly that slot and block
+        forall|t: Slot| t.0 >= final(self).lo() ==> ((#[trigger] final(self).st(t)).block_notarized == old(self).st(t).block_notarized
+            || (cert matches Cert::Notar(x) && t == x.slot && final(self).st(t).block_notarized == Some(x.block_hash))),
         final(self).inv(),
         old(self).sent@.is_prefix_of(final(self).sent@),
         // [C05.certificate_only_triggers_finalize_vote]
@@ -625,7 +646,7 @@ before `match &cert {`
 after `self.state_mut(cert.slot()).block_notarized = Some(hash.clone());`
         proof {
             let sl = cert.spec_slot();
-            assert forall|t: Slot| #[trigger] self.st(t) == (if t == sl { SlotState { block_notarized: Some(*hash), ..pre.st(sl) } } else { pre.st(t) }) by {}
+            assert forall|t: Slot| #[trigger] self.st(t) == (if t == sl { SlotState { block_notarized: self.st(sl).block_notarized, ..pre.st(sl) } } else { pre.st(t) }) by {}
             assert(self.inv());
         }
 before `self.verif_broadcast(ConsensusMessage::Cert(cert));`
@@ -680,6 +701,10 @@ requires
         event matches PoolEvent::SafeToNotar(id) ==> id.0.0 + SLOTS_PER_WINDOW <= u64::MAX,
         event matches PoolEvent::SafeToSkip(s) ==> s.0 + SLOTS_PER_WINDOW <= u64::MAX,
 ensures
+        // [C05.notarized_mark_only_from_a_notarization_certificate] "casts a finalize vote only ... after seeing that block's notarization
+        // certificate": the mark try_final relies on is set by nothing but a notarization certificate for exactly that slot and block
+        forall|t: Slot| t.0 >= final(self).lo() ==> ((#[trigger] final(self).st(t)).block_notarized == old(self).st(t).block_notarized
+            || (event matches PoolEvent::CertCreated(Cert::Notar(x)) && t == x.slot && final(self).st(t).block_notarized == Some(x.block_hash))),
         final(self).inv(),
         old(self).sent@.is_prefix_of(final(self).sent@),
         // [C18.standstill_bundle_forwarded_completely] every certificate and every vote of the bundle is re-broadcast,
@@ -788,6 +813,9 @@ requires
         old(self).inv(),
         (match event { BlockstoreEvent::FirstShred(s) => s, BlockstoreEvent::InvalidBlock(s) => s, BlockstoreEvent::Block { slot, block_info } => slot }).0 + SLOTS_PER_WINDOW <= u64::MAX,
 ensures
+        // [C05.notarized_mark_only_from_a_notarization_certificate] "casts a finalize vote only ... after seeing that block's notarization
+        // certificate": the mark try_final relies on is set by nothing but a notarization certificate for exactly that slot and block
+        forall|t: Slot| t.0 >= final(self).lo() ==> (#[trigger] final(self).st(t)).block_notarized == old(self).st(t).block_notarized,
         final(self).inv(),
         old(self).sent@.is_prefix_of(final(self).sent@),
         // [C05.blocks_trigger_only_initial_and_finalize_votes]
@@ -841,6 +869,9 @@ requires
         old(self).inv(),
         (match event { VotorTimeout::Timeout(s) => s, VotorTimeout::TimeoutCrashedLeader(s) => s }).0 + SLOTS_PER_WINDOW <= u64::MAX,
 ensures
+        // [C05.notarized_mark_only_from_a_notarization_certificate] "casts a finalize vote only ... after seeing that block's notarization
+        // certificate": the mark try_final relies on is set by nothing but a notarization certificate for exactly that slot and block
+        forall|t: Slot| t.0 >= final(self).lo() ==> (#[trigger] final(self).st(t)).block_notarized == old(self).st(t).block_notarized,
         final(self).inv(),
         old(self).sent@.is_prefix_of(final(self).sent@),
         // [C05.timeouts_trigger_only_skip_votes]
